@@ -832,7 +832,7 @@ func (rl *Shell) keywordSwitch(increase bool) {
 		epos = bpos + oepos
 		bpos += obpos
 
-		if cpos < bpos || cpos >= epos {
+		if cpos < bpos || cpos >= epos || epos > rl.line.Len() {
 			continue
 		}
 
